@@ -41,13 +41,14 @@ RE = os.path.join('test', 'testfiles_for_readelf')
 # (file, supplementary file or None)
 CORPUS_QUICK = [(UT + '/sample_exe64.elf', None), (RE + '/simple_mips_gcc.o.elf', None), (UT + '/dwarfv5_basic.elf', None),
                 (RE + '/gcc48-simple.o', None), (UT + '/test_gnudebugaltlink1.debug', UT + '/test_gnudebugaltlink.common'),
-                (UT + '/test_debugsup1.debug', UT + '/test_debugsup.common')]
+                (UT + '/test_debugsup1.debug', UT + '/test_debugsup.common'), (UT + '/exe_solaris32_cc.sparc.elf', None),
+                (RE + '/s390x-relocs.o.elf', None), (RE + '/reloc_arm_gcc.o.elf', None), (RE + '/dwarf_v4cie.elf', None)]
 CORPUS_THOROUGH = CORPUS_QUICK + [
-    (UT + '/exe_solaris64_cc.sparc.elf', None), (UT + '/exe_solaris32_cc.sparc.elf', None), (UT + '/aarch64_be_gnu_hash.so.elf', None),
-    (RE + '/s390x-relocs.o.elf', None), (RE + '/powerpc64-relocs-le.o.elf', None), (RE + '/aarch64-relocs-le.o.elf', None),
-    (RE + '/reloc_arm_gcc.o.elf', None), (UT + '/lambda.elf', None), (UT + '/debug_info.elf', None), (UT + '/dwarf_llpair.elf', None),
+    (UT + '/exe_solaris64_cc.sparc.elf', None), (UT + '/aarch64_be_gnu_hash.so.elf', None),
+    (RE + '/powerpc64-relocs-le.o.elf', None), (RE + '/aarch64-relocs-le.o.elf', None),
+    (UT + '/lambda.elf', None), (UT + '/debug_info.elf', None), (UT + '/dwarf_llpair.elf', None),
     (RE + '/dwarf_test_versions_mix.elf', None), (RE + '/dwarf_lineprogramv5.elf', None), (RE + '/cuv5_x86-64_gcc.so.elf', None),
-    (RE + '/penalty_64_clang.o.elf', None), (RE + '/update32.o.elf', None), (RE + '/dwarf_v4cie.elf', None), (UT + '/debuglink.debug', None),
+    (RE + '/penalty_64_clang.o.elf', None), (RE + '/update32.o.elf', None), (UT + '/debuglink.debug', None),
     (UT + '/dwarf_v5_forms.debug', None), (UT + '/pascalenum.o', None), (UT + '/dwarf_debug_types.elf', None),
     (UT + '/compressed_64.o', None), (UT + '/compressed_32.o', None), (RE + '/exe_compressed64.elf', None)]
 
